@@ -202,6 +202,10 @@ class Exec(ExprMixin):
             k = self.ev(t.slice, st)
             if o.kind == 'val' and o.ty is not None and o.ty.kind == 'dict':
                 o = sv_ref(self.as_ref(o, st, 'subscript store'), Dict(o.ty.key, o.ty.elem))
+            if o.kind == 'val' and (o.ty is None or o.ty.kind == 'val'):
+                # dynamically typed container: must be a dict (anything else: TypeError exit)
+                self.side_raise(st, 'TypeError', z3.Not(z3.And(is_VRef(o.t), st.h.cls(v_a(o.t)) == CLS_DICT)), 'subscript store on non-dict')
+                o = sv_ref(v_a(o.t), Dict(None, None))
             if o.kind == 'ref' and o.cls == 'dict':
                 self.dict_set(o.t, k, v, st)
                 return
